@@ -77,7 +77,9 @@ def run(ctx, rep):
             good = len(ex) == 1
             if good:
                 sl = backward_slice(b, ex[0]["a"][1])
-                good = any(strip_generics(callee_name(c)) == "audio::Frame::iter" for c in sl["calls"]) and "buf" in backward_slice(b, ex[0]["a"][0])["fields"]
+                adapters = [strip_generics(callee_name(c)).rsplit("::", 1)[-1] for c in sl["calls"]]
+                good = any(strip_generics(callee_name(c)) == "audio::Frame::iter" for c in sl["calls"]) and "buf" in backward_slice(b, ex[0]["a"][0])["fields"] and \
+                    not any(a in ("skip", "take", "step_by", "filter", "skip_while", "take_while", "rev", "map", "filter_map", "chain") for a in adapters)
             rep.check("C07.fill", "%s appends the frame's interleaved samples (frame.iter())" % strip_generics(path), good, loc_of(b))
     rep.floor("C07.refill", "refill sites", n, 6)
 
